@@ -544,6 +544,12 @@ def run_one(cfg, decisions=None, keep_events=False):
         # ---- schedules over the implementation's own mesh ------------------------------
         rng = random.Random(cfg["sched_seed"])
         # (a distribution cut to <= 1 point is judged by the final value, A2, not by prefixes)
+        # (single precision: a combined weight below float32's normal range reaches the kernel as
+        # a subnormal with a large relative error, and the reference's own halved copy of it
+        # rounds differently; such meshes are judged by schedule agreement only)
+        if cfg["dtype"] != "double" and contrib is not None and np.any((wprod > 0) & (wprod < 1e-35)):
+            ambiguous = True
+            probe("subnormal_weight_in_single_precision_reference_skipped")
         check_prefix = (contrib is not None and not ambiguous and n_impl == n_loop and not truncated)
         # double: 1e-11 of the magnitude sum; single: the kernel accumulates in
         # float32, n * eps32 with a margin
